@@ -654,7 +654,7 @@ def fl(h):
     return float.fromhex(h)
 
 
-def reference_flat(prog):
+def reference_flat(prog, asap_tock=None):
     """The documented cycle model for a FLAT static program without faults (a second, independent
     statement of it in Python floats): returns list of (doer, tyme) recur steps, final tyme, done."""
     tyme, tock = prog["tyme"], prog["tock"]
@@ -678,7 +678,7 @@ def reference_flat(prog):
                 out.append((i, tyme))
                 if o[0] == "y":
                     t = o[1]
-                    due[i] = (tyme + tock) if not t else due[i] + t
+                    due[i] = (tyme + (tock if asap_tock is None else asap_tock.get(i, tock))) if not t else due[i] + t
                 else:
                     order.remove(i)
         tyme += tock
